@@ -54,7 +54,9 @@ def experienced(pid, tier, seed):
 
 SPEC = {
     "corr": [{"kind": "producer", "quick": 200, "thorough": 50000,
-              "runner": {"pkg": "./producer", "test": "TestVerifRawSocket", "race": False, "timeout": "30m"}}],
+              "runner": {"pkg": "./producer", "test": "TestVerifRawSocket", "race": False, "timeout": "30m"}},
+             {"kind": "producerk", "quick": 400, "thorough": 40000,
+              "runner": {"pkg": "./producer", "test": "TestVerifSarama", "race": False, "timeout": "30m"}}],
     "extra": [experienced],
     "rule": "fault scripts (sink closes / resets / goes down / comes back at message indices, or stalls and kills the connection while the producer is blocked half-way through writing a multi-megabyte message) x protocols unix, tcp, udp x "
             "retry-max 0..5 x 8..400 messages whose lengths also sit on buffer boundaries (2^k-1, 2^k, 2^k+1 for k = 8..16; a new longest message followed by one 2^j-1..2^j+1 octets longer) and whose contents include printf verbs, stray '%', multi-kilobyte and binary "
@@ -62,9 +64,18 @@ SPEC = {
             "at least one message; distinct = distinct case line. The model predicts the exact per-connection delivery and "
             "MQErrorCount for unix-socket scripts and all fault-free runs; on tcp/udp fault scripts (kernel timing) the main correspondence prints `nd`; for those the extra pass "
             "`producer-experienced-script` runs the model on the outcome script the producer actually experienced (reconstructed from "
-            "its log and the sink) and compares ec / per-connection delivery.",
+            "its log and the sink) and compares ec / per-connection delivery. "
+            "producerk (kafka, the default backend; F20): error scripts x 0..400 messages (printf verbs, binary octets, newlines, multi-kilobyte) "
+            "run by producer/verif_sarama_test.go on the real KafkaSarama.inputMsg: `mock` = sarama's own mocks.AsyncProducer with one "
+            "succeed/fail expectation per input and ChannelBufferSize 0 (the select arm that can be taken is then fixed by the script; the model, "
+            "which interprets the regenerated loop description Gen.saramaLoop, must print the same offered indices / ec / logged reports) or "
+            "1..256 (scheduler decides: `nd`, oracle only); `arms` = a scripted sarama.AsyncProducer with unbuffered channels that presents "
+            "exactly one arm per select (runs of 1..3 error reports before / between / after the accepted inputs). Oracle: the values reaching "
+            "Input() are exactly the handed-over messages, each once, in order, topic unchanged; ec = reports logged = reports taken from Errors() "
+            "(mock: = failed inputs - reports left unread).",
     "assumptions": ["TCP/UDP loopback timing enters only through the oracle-only (`nd`) cases",
-                    "kafka/nsq/nats client libraries are outside the model (payload expression facts only)"],
+                    "kafka: what sarama does with a value after Input() accepted it is the library's; nsq/nats/segmentio client libraries are "
+                    "outside the model (payload expression facts only; their loops have no second select arm that can pre-empt the hand-over)"],
     "search_factor": 1,
 }
 META = {
@@ -72,10 +83,16 @@ META = {
             "(delivered_in_order, delivered_subsequence, bounded_gap, counters_exact, resumption, no_fault_all_delivered); "
             "the write expression and retry/redial skeleton of rawSocket.inputMsg and the payload expressions of the other "
             "backends are regenerated from the Go AST and discharged by decide; the real RawSocket is run against real "
-            "unix/tcp/udp sinks under scripted faults.",
+            "unix/tcp/udp sinks under scripted faults. Kafka (sarama, default backend): the send loop of KafkaSarama.inputMsg is a "
+            "regenerated description interpreted by a Lean model; for every message list and every script of select arms the "
+            "values accepted on Input() are exactly the handed-over messages, once, in order, and the error counter equals the "
+            "error reports taken (kafka_offered_is_prefix, kafka_offered_eq_received, kafka_counters_exact; false on the loop "
+            "before the F20 repair: f20_drop_counterexample); the real inputMsg is run against sarama's mock producer and a "
+            "scripted AsyncProducer.",
     "ref": "DESIGN.md §6 C14",
     "note": "Trusted: Lean kernel; the outcome-script abstraction of the network (write = ok/lost/broken-pipe/other error; "
             "dial = ok/fail); factgen; the socket harness. tcp/udp fault timing is the kernel's and is checked by the oracle "
-            "only. Kafka/NSQ/NATS delivery is the client libraries'.",
+            "only. Kafka: the arm-script abstraction of the client library and scheduler (per select: input accepted / error report "
+            "taken); delivery after Input() accepted a value is sarama's. NSQ/NATS/segmentio delivery is the client libraries'.",
     "technique": "Lean 4 proof by induction over the message list and retry budget + AST facts + socket-level differential test",
 }
